@@ -416,8 +416,9 @@ class World (object):
       an = d if kw.get("short_attrs") else "_%s_" % d
       got = getattr(sink, an, None)
       if got is None or got is not self.core.components.get(d):
-        self.fail("sink-attr", "sink %s: attribute %s is %r, registered %s is %r"
-                  % (name, an, got, d, self.core.components.get(d)), name)
+        self.fail("sink-attr", "sink %s: attribute %s is %s, but component %s is registered"
+                  % (name, an, "missing" if got is None else "another object", d),
+                  "short_attrs" if kw.get("short_attrs") else "attrs")
 
   def probe (self):
     """Raise Ev on every component object ever registered; exactly the sinks the model
@@ -679,6 +680,28 @@ class World (object):
       self.check_attrs(self.sinks[wid[1]])
 
   # ---- canonical state (state matching) ----------------------------------
+  def canon_val (self, x, depth=0):
+    """Canonical, history-independent rendering of a value held by the core (entry fields, closure cells)."""
+    P = self.P
+    if x is None or isinstance(x, (str, int, float, bool)): return x
+    if depth > 4: return type(x).__name__
+    if isinstance(x, (set, frozenset)): return ("set", tuple(sorted((self.canon_val(v, depth + 1) for v in x), key=repr)))
+    if isinstance(x, (list, tuple)): return (type(x).__name__, tuple(self.canon_val(v, depth + 1) for v in x))
+    if isinstance(x, dict):
+      return ("dict", tuple(sorted(((repr(k), self.canon_val(v, depth + 1)) for k, v in x.items()), key=repr)))
+    if isinstance(x, P.SinkBase): return ("sink", x.kind)
+    if x is self.core: return "core"
+    if isinstance(x, (P.Comp, P.Plain)): return ("component", x.name, self.model.comps.get(x.name) == x.gen)
+    if getattr(x, "c08", None) is not None: return ("w", tuple(sorted(self.model.declared[x.c08])))
+    if hasattr(x, "__closure__") and hasattr(x, "__code__"):
+      cells = []
+      for name, cell in zip(x.__code__.co_freevars, x.__closure__ or ()):
+        try: v = cell.cell_contents
+        except ValueError: v = "<empty>"
+        cells.append((name, self.canon_val(v, depth + 1)))
+      return ("function", x.__code__.co_name, tuple(cells))
+    return type(x).__name__
+
   def canon (self):
     core = self.core
     ws = []
@@ -686,10 +709,10 @@ class World (object):
       wid = getattr(e[0], "c08", None)
       if wid is not None:
         ws.append(("w", tuple(sorted(self.model.declared[wid]))))
-      elif e[3] and isinstance(e[3][0], self.P.SinkBase):
-        ws.append(("s", e[3][0].kind))
       else:
-        ws.append(("?", repr(e[1])))
+        # an entry made by core itself (listen_to_dependencies): everything it carries, including what its
+        # callback closes over - two histories only merge if that hidden state agrees too
+        ws.append(tuple(self.canon_val(x) for x in e))
     sinks = []
     for kind in self.prm["sinks"]:
       wid = ("s", kind)
